@@ -15,6 +15,7 @@ import (
 	sdk "github.com/cosmos/cosmos-sdk/types"
 	sdkerrors "github.com/cosmos/cosmos-sdk/types/errors"
 	authtypes "github.com/cosmos/cosmos-sdk/x/auth/types"
+	vestingtypes "github.com/cosmos/cosmos-sdk/x/auth/vesting/types"
 	abci "github.com/tendermint/tendermint/abci/types"
 
 	"verif/harness/env"
@@ -321,6 +322,37 @@ func (f *faultyBank) BurnCoins(ctx sdk.Context, moduleName string, amt sdk.Coins
 	return f.BankKeeper.BurnCoins(ctx, moduleName, amt)
 }
 
+// lockBaseSources turns every base account named by a "sweep:BASE-<user>" fault into a vesting account whose balance is
+// fully locked (the fault is removed from the set: the real bank keeper fails the sweep) and returns the undo function.
+func (s *state) lockBaseSources(ctx sdk.Context, faults map[string]bool) func() {
+	app := s.env.App
+	var saved []authtypes.AccountI
+	for f := range faults {
+		if !strings.HasPrefix(f, "sweep:BASE-") {
+			continue
+		}
+		u, ok := s.env.Users[strings.TrimPrefix(f, "sweep:BASE-")]
+		if !ok {
+			continue
+		}
+		acc := app.AccountKeeper.GetAccount(ctx, u.Addr)
+		ba, isBase := acc.(*authtypes.BaseAccount)
+		bal := app.BankKeeper.GetAllBalances(ctx, u.Addr)
+		if !isBase || bal.IsZero() {
+			continue
+		}
+		saved = append(saved, ba)
+		now := ctx.BlockTime().Unix()
+		app.AccountKeeper.SetAccount(ctx, vestingtypes.NewContinuousVestingAccountRaw(vestingtypes.NewBaseVestingAccount(ba, bal, now+1000000), now))
+		delete(faults, f)
+	}
+	return func() {
+		for _, a := range saved {
+			app.AccountKeeper.SetAccount(ctx, a)
+		}
+	}
+}
+
 func (s *state) keeperWithFaults(faults map[string]bool) (dkeeper.Keeper, *faultyBank) {
 	app := s.env.App
 	fb := &faultyBank{BankKeeper: app.BankKeeper, s: s, faults: faults, hit: map[string]int{}}
@@ -471,13 +503,22 @@ func apply(w *walk.Worker, ctx sdk.Context, e *graph.Edge, path []*graph.Edge, g
 		}
 		ctx = ctx.WithBlockHeight(ctx.BlockHeight() + 1).WithBlockTime(ctx.BlockTime().Add(5 * time.Second))
 		k := app.CfedistributorKeeper
+		// a failing sweep of a base-account source is made to fail for a real reason: for the block the account is a
+		// continuous vesting account with its whole balance locked, so the bank itself refuses the transfer
+		nf := len(faults)
+		restore := s.lockBaseSources(ctx, faults)
+		if len(faults) < nf {
+			w.Count("block.sweep-refused-by-bank")
+		}
 		if faulty {
 			k, _ = s.keeperWithFaults(faults)
 		}
 		for _, d := range s.denomsOf(g.States[e.From], exp) {
 			supBefore[d] = app.BankKeeper.GetSupply(ctx, d).Amount
 		}
-		if p := env.Try(func() { cfedistributor.BeginBlocker(ctx, k) }); p != "" {
+		p := env.Try(func() { cfedistributor.BeginBlocker(ctx, k) })
+		restore()
+		if p != "" {
 			fail("C10", "panic", "dist.beginblock.panic."+shapeOf(s.cfgOf(g.States[e.From])), "BeginBlocker panicked: "+p, "no panic", p)
 			return ctx, fs, true
 		}
